@@ -1,7 +1,7 @@
 """Engine cross-check: the symbolic executor run on CONCRETE inputs (everything inlined, real hashes) must agree with
 CPython running the same program on the real modules.  This is a bounded test OF THE VERIFIER (front end, interpreter,
 concrete paths of the library model), reported under engine_crosscheck; it never contributes to a verdict."""
-import ast, textwrap
+import ast, textwrap, os
 from . import sym
 from .interp import Interp, Ctx, Frame
 from .values import *
@@ -172,10 +172,14 @@ def run(repo, reg, spec):
         finally:
             sys.setrecursionlimit(old)
     threading.stack_size(512 * 1024 * 1024)
-    t = threading.Thread(target=work)
+    t = threading.Thread(target=work, daemon=True)
     t.start()
-    t.join()
+    t.join(float(os.environ.get("PYVC_XC_BUDGET_S", "90")))
     threading.stack_size(0)
+    if t.is_alive() or "r" not in out:
+        # the executor did not finish the concrete programs in the budget (typically: an edit makes a concrete value
+        # symbolic in the model, so the run degenerates into symbolic exploration): reported, never a verdict
+        return {"programs": 0, "values_compared": 0, "mismatches": [{"error": "UNSUPPORTED: engine cross-check exceeded its time budget"}]}
     return out["r"]
 
 
